@@ -163,6 +163,20 @@ Definition ops_C08 : list opdef := [
        | [n; x; y] => match as_zs x, as_zs y with
            | Some x, Some y => VZ (spec_FromStr_cmp x y) | _, _ => VBad end
        | _ => VBad end) |};
+  (* FromStr(ToStr(ws)) on in-range words: ws and the zero words that complete the last byte *)
+  {| op_name := "bitword.FromStr/ToStr";
+     op_run := fun a => match a with
+       | [n; ws] => match as_z n, as_zs ws with
+           | Some n, Some ws =>
+               if width_ok n && words_inb (Z.to_nat n) ws
+               then match ToStr (newBW n) ws with Some s => vzs (FromStr (newBW n) s) | None => VPanic end
+               else VBad
+           | _, _ => VBad end
+       | _ => VBad end;
+     op_spec := fun_spec (fun a => match a with
+       | [n; ws] => match as_z n, as_zs ws with
+           | Some n, Some ws => vzs (spec_FromStr_ToStr (Z.to_nat n) ws) | _, _ => VBad end
+       | _ => VBad end) |};
   (* the next three observe behaviour OUTSIDE the domain of the C08 statement (index out of range,
      negative from, words >= 2^n); the generator emits them only when VERIF_C08_WIDE=1 *)
   {| op_name := "bitword.Get/any";
